@@ -78,6 +78,8 @@ structure Shell where
   ast : List Entry          -- ip.ast_transformers
   cleanup : List Entry      -- ip.input_transformers_cleanup
   loaded : Bool             -- 'pyflyby' ∈ ip.extension_manager.loaded   (IPython's bookkeeping)
+  astObj : Nat := 0         -- identity of the list object currently bound to `ip.ast_transformers`
+  cleanupObj : Nat := 0     -- identity of the list object bound to `input_transformer_manager.cleanup_transforms`
 
 def Shell.setJp (sh : Shell) (j : JP) (v : Val) : Shell :=
   { sh with jp := fun j' => if j' = j then v else sh.jp j' }
@@ -87,8 +89,8 @@ def Shell.setJp (sh : Shell) (j : JP) (v : Val) : Shell :=
 /-- An element of `AutoImporter._disablers`. -/
 inductive Disabler
   | unadvise (j : JP) (previous wrapped : Val)   -- bound `Aspect.unadvise` of an aspect with these fields
-  | removeAst (t : Entry)                        -- `unregister_ast_transformer`
-  | removeCleanup (t : Entry)                    -- only with the D3 repair: remover of the reset transformer
+  | removeAst (id : Nat)        -- `unregister_ast_transformer`: `ip.ast_transformers.remove(t)` on the list bound *now*
+  | removeCleanup (id : Nat)    -- D3 repair: `ip.input_transformers_cleanup.remove(f)`, again the current list
   deriving DecidableEq, Repr
 
 inductive EState
@@ -138,8 +140,8 @@ def advise (st : St) (j : JP) : St :=
     `remove…`: `list.remove(t)` with the `ValueError` swallowed. -/
 def applyD : Disabler → Shell → Shell
   | .unadvise j prev w, sh => if sh.jp j = w then sh.setJp j prev else sh
-  | .removeAst t, sh => { sh with ast := sh.ast.erase t }
-  | .removeCleanup t, sh => { sh with cleanup := sh.cleanup.erase t }
+  | .removeAst i, sh => { sh with ast := sh.ast.erase (.pf i) }
+  | .removeCleanup i, sh => { sh with cleanup := sh.cleanup.erase (.pf i) }
 
 def Disabler.isRemoveAst : Disabler → Bool
   | .removeAst _ => true
@@ -172,14 +174,14 @@ def doStep (cfg : Cfg) (st : St) : Step → St
   | .reset =>
     let t := Entry.pf st.next
     { sh := { st.sh with cleanup := st.sh.cleanup ++ [t] },
-      ai := if cfg.resetDisabler then { st.ai with disablers := st.ai.disablers ++ [.removeCleanup t] }
+      ai := if cfg.resetDisabler then { st.ai with disablers := st.ai.disablers ++ [.removeCleanup st.next] }
             else st.ai,
       next := st.next + 1 }
   | .ofind => advise st .ofind
   | .ast =>
     let t := Entry.pf st.next
     { sh := { st.sh with ast := st.sh.ast ++ [t] },
-      ai := { st.ai with disablers := st.ai.disablers ++ [.removeAst t], astT := true },
+      ai := { st.ai with disablers := st.ai.disablers ++ [.removeAst st.next], astT := true },
       next := st.next + 1 }
   | .prun => advise st .prun
   | .completerCheck => st
@@ -367,7 +369,30 @@ def invoke (cfg : Cfg) (st : St) (h : HookId) (o : Outcome) : Invocation :=
 
 /-! ## Operations and runs -/
 
+/-- What a third party (another extension, `%config`, the user) may do to IPython's hook registries while
+    pyflyby is installed.  Rebinding gives the attribute a *new list object* with the same content;
+    the model's lists are the contents of whatever object is bound now. -/
+inductive Foreign
+  | rebindAst                 -- ip.ast_transformers = list(ip.ast_transformers)
+  | rebindCleanup             -- itm.cleanup_transforms = list(itm.cleanup_transforms)
+  | addAst (n : Nat)          -- ip.ast_transformers.append(<foreign n>)
+  | rmAst (n : Nat)           -- remove foreign entry n (nothing if absent)
+  | addCleanup (n : Nat)
+  | rmCleanup (n : Nat)
+  | other                     -- registries pyflyby does not use (input_transformers_post, matchers, set_hook)
+  deriving DecidableEq, Repr
+
+def applyForeign : Foreign → Shell → Shell
+  | .rebindAst, sh => { sh with astObj := sh.astObj + 1 }
+  | .rebindCleanup, sh => { sh with cleanupObj := sh.cleanupObj + 1 }
+  | .addAst n, sh => { sh with ast := sh.ast ++ [.ext n] }
+  | .rmAst n, sh => { sh with ast := sh.ast.erase (.ext n) }
+  | .addCleanup n, sh => { sh with cleanup := sh.cleanup ++ [.ext n] }
+  | .rmCleanup n, sh => { sh with cleanup := sh.cleanup.erase (.ext n) }
+  | .other, sh => sh
+
 inductive Op
+  | foreign (f : Foreign)
   | enable (even : Bool) (fail : Option Nat)
   | disable
   | loadExt (fail : Option Nat)
@@ -378,6 +403,7 @@ inductive Op
   deriving DecidableEq, Repr
 
 def step (cfg : Cfg) (st : St) : Op → St
+  | .foreign f => { st with sh := applyForeign f st.sh }
   | .enable even fail => enable cfg even fail st
   | .disable => disable st
   | .loadExt fail => loadExt cfg fail st
@@ -391,6 +417,13 @@ def run (cfg : Cfg) (st : St) (ops : List Op) : St := ops.foldl (step cfg) st
 def Op.isFresh : Op → Bool
   | .freshImporter => true
   | _ => false
+
+def Op.isForeign : Op → Bool
+  | .foreign _ => true
+  | _ => false
+
+/-- neither an embedded-shell importer swap nor a third-party step -/
+def Op.notPlain (op : Op) : Bool := op.isFresh || op.isForeign
 
 /-- states after each op -/
 def trace (cfg : Cfg) : St → List Op → List St
@@ -435,13 +468,14 @@ def refStep (cfg : Cfg) (r : Ref) : Op → Ref
       if r.enabled && !r.errored && prot cfg h k = .safe then { r with enabled := false, errored := true } else r
   | .invoke _ .ok => r
   | .freshImporter => r
+  | .foreign _ => r
 
 def abs (st : St) : Ref := ⟨st.ai.state = .enabled, st.sh.loaded, st.ai.errored⟩
 
 /-! ## Initial states -/
 
 /-- a shell pyflyby has not touched, with IPython's four cleanup transformers -/
-def Shell.plain : Shell := ⟨fun _ => .unset, [], [.ext 0, .ext 1, .ext 2, .ext 3], false⟩
+def Shell.plain : Shell := ⟨fun _ => .unset, [], [.ext 0, .ext 1, .ext 2, .ext 3], false, 0, 0⟩
 
 def St.init : St := ⟨Shell.plain, Importer.fresh, 0⟩
 
